@@ -11,6 +11,22 @@ E2 = "stateless model checking: exhaustive DFS of the choice tree of RNG answers
 E3 = "explicit-state BFS over operation histories of the real object, reference-model comparison in every state"
 
 CHECKS = {
+    "C18": dict(
+        built=True,
+        category="model_checking",
+        engine="E1+E2+E3",
+        technique="explicit-state BFS over the real destroy/repair operators with every answer of their random generator enumerated "
+        "(E3+E2), plus bounded-exhaustive job lists with all RNG answers of the local search (E1+E2); invariant and independent "
+        "objective recomputation in every state",
+        text="Histories are the quantifier for the VRPTW bookkeeping: from VRPState.from_problem, breadth-first search over the nine "
+        "exported operators, each call expanded over all answers of its generator, evaluates 'unassigned xor routed, never twice, "
+        "single-vehicle on one route, depot nowhere, arrival times consistent, argument not mutated' in every reached state for a "
+        "complete family of 3-customer instances. Job shop: all job lists with <=3 jobs x <=2 operations, five rules, local search with "
+        "every randrange/choice answer. solve_vrptw: RNG answers to 2 deviations and real seeds, objective recomputed independently.",
+        note="Trusts: the invariant and objective re-implementation in checks/c18.py, ScriptedRandom menus (stated in evidence). "
+        "Bound: depth 3 (4), 3 customers, 2 vehicles; float menus of random() are a 5-value alphabet.",
+        ref="2/C18",
+    ),
     "C17": dict(
         built=True,
         category="exploration",
